@@ -562,3 +562,529 @@ Proof.
   destruct Hp2 as [[_ ->]|(Hne & _)]; [|contradiction].
   apply Hnz. apply WD_user_val_paid.
 Qed.
+
+(** ** 6. The release step adds claims worth at most the arrived coins *)
+
+(** claims [(bsei, stsei)] recorded in the wait list on batch [i] *)
+Definition WD_batch_claims (wait : fmap (addr * N) (N * N)) (i : N) : list (N * N) :=
+  map snd (filter (fun kv => snd (fst kv) =? i) wait).
+
+(** C07-type hypothesis: the claims recorded on each batch of the group do not exceed the batch's
+    amounts (C07 states: claims + already withdrawn = amount) *)
+Definition WD_claims_le (h : hub) (g : list (N * hist_entry)) : Prop :=
+  forall i e, In (i, e) g ->
+    sumN (map fst (WD_batch_claims (h_wait h) i)) <= he_bamt e /\
+    sumN (map snd (WD_batch_claims (h_wait h) i)) <= he_samt e.
+
+(** value of a wait entry under the freshly released entries [l] only *)
+Definition WD_new_val (l : list (N * hist_entry)) (kv : (addr * N) * (N * N)) : N :=
+  match get N.eqb l (snd (fst kv)) with Some e' => GR_claim_val e' (snd kv) | None => 0 end.
+
+Lemma WD_sum_zero {T} (l : list T) : sumN (map (fun _ => 0) l) = 0.
+Proof. induction l as [|x l IH]; cbn [map sumN]; lia. Qed.
+
+Lemma WD_sum_batch (f : N * N -> N) (wait : fmap (addr * N) (N * N)) i :
+  sumN (map (fun kv => if snd (fst kv) =? i then f (snd kv) else 0) wait) =
+  sumN (map f (WD_batch_claims wait i)).
+Proof.
+  unfold WD_batch_claims. induction wait as [|kv r IH]; [reflexivity|].
+  cbn [map sumN filter]. destruct (snd (fst kv) =? i); cbn [map sumN]; lia.
+Qed.
+
+Lemma WD_sum_by_batch (l : list (N * hist_entry)) (wait : fmap (addr * N) (N * N)) :
+  NoDup (map fst l) ->
+  sumN (map (WD_new_val l) wait) =
+  sumN (map (fun ie => sumN (map (GR_claim_val (snd ie)) (WD_batch_claims wait (fst ie)))) l).
+Proof.
+  induction l as [|[i e] l IH]; intros Hnd.
+  - cbn [map sumN]. unfold WD_new_val. cbn [get]. apply WD_sum_zero.
+  - inversion Hnd as [|x xs Hni Hnd']; subst. cbn [map sumN fst snd].
+    rewrite <- (IH Hnd'). rewrite <- (WD_sum_batch (GR_claim_val e) wait i).
+    rewrite <- GR_sum_plus. f_equal. apply map_ext. intros kv.
+    unfold WD_new_val. cbn [get].
+    destruct (snd (fst kv) =? i) eqn:E.
+    + apply N.eqb_eq in E. rewrite E. rewrite (WD_get_notin l i Hni). lia.
+    + lia.
+Qed.
+
+(** pointwise: value after the release = value before + value under the fresh entries *)
+Lemma WD_entry_val_after h t A kv :
+  WD_entry_val (h_hist (GR_after h (GR_group h t) A)) kv =
+  WD_entry_val (h_hist h) kv + WD_new_val (GR_release (GR_group h t) A) kv.
+Proof.
+  unfold WD_entry_val, WD_new_val. rewrite WD_hist_after.
+  unfold GR_release. cbv zeta. rewrite WD_get_map_rel.
+  destruct (get N.eqb (GR_group h t) (snd (fst kv))) as [e|] eqn:Eg.
+  - assert (Hin : In (snd (fst kv), e) (GR_group h t)).
+    { clear - Eg. induction (GR_group h t) as [|[i e0] g IH]; cbn [get] in Eg; [discriminate|].
+      destruct (snd (fst kv) =? i) eqn:E.
+      - apply N.eqb_eq in E. inversion Eg; subst. left. reflexivity.
+      - right. exact (IH Eg). }
+    apply WD_rg_in in Hin. destruct Hin as (Hget & Hrel & _).
+    rewrite Hget, Hrel. cbn [he_released GR_rel]. lia.
+  - destruct (get N.eqb (h_hist h) (snd (fst kv))) as [e|]; [destruct (he_released e)|]; lia.
+Qed.
+
+Lemma WD_R_after h t A :
+  WD_R (GR_after h (GR_group h t) A) =
+  WD_R h + sumN (map (WD_new_val (GR_release (GR_group h t) A)) (h_wait h)).
+Proof.
+  unfold WD_R. cbn [h_wait GR_after set_h_state set_h_hist].
+  rewrite <- GR_sum_plus. f_equal. apply map_ext. intros kv. apply WD_entry_val_after.
+Qed.
+
+(** all claims on the freshly released batches are together worth at most the arrived coins *)
+Lemma WD_new_val_le h t A :
+  GR_E1' (GR_group h t) A -> WD_claims_le h (GR_group h t) ->
+  sumN (map (WD_new_val (GR_release (GR_group h t) A)) (h_wait h)) <= A.
+Proof.
+  intros HE Hcl.
+  rewrite WD_sum_by_batch by (rewrite WD_release_keys; apply WD_rg_nodup).
+  pose proof (GR_group_paid_le_arrived _ _ HE) as Hpaid.
+  eapply N.le_trans; [|exact Hpaid]. clear Hpaid HE.
+  unfold GR_release. cbv zeta. rewrite !map_map. cbn [fst snd].
+  unfold WD_claims_le in Hcl.
+  generalize (GR_tot_s (GR_group h t)) (GR_tot_b (GR_group h t))
+             (GR_sgn (GR_tot_s (GR_group h t)) (fst (GR_split (GR_tot_s (GR_group h t)) (GR_tot_b (GR_group h t)) A)))
+             (GR_sgn (GR_tot_b (GR_group h t)) (snd (GR_split (GR_tot_s (GR_group h t)) (GR_tot_b (GR_group h t)) A))).
+  intros Us Ub ss sb.
+  induction (GR_group h t) as [|[i e] g IH]; [cbn; lia|].
+  cbn [map sumN fst snd].
+  specialize (IH (fun i' e' Hin => Hcl i' e' (or_intror Hin))).
+  destruct (Hcl i e (or_introl eq_refl)) as [Hb Hs].
+  pose proof (GR_claims_le_batch (GR_rel Us Ub ss sb e) (WD_batch_claims (h_wait h) i)) as Hc.
+  cbn [GR_rel he_bamt he_samt] in Hc. specialize (Hc Hb Hs). lia.
+Qed.
+
+(** Target A at the hub level *)
+Theorem WD_group_paid_le_arrived h t balance h1 :
+  process_withdraw_rate h t balance = Some h1 ->
+  GR_E1' (GR_group h t) (balance - hs_phb (h_state h)) ->
+  WD_claims_le h (GR_group h t) ->
+  exists newly, WD_R h1 = WD_R h + newly /\
+                (GR_group h t <> [] -> newly <= balance - hs_phb (h_state h) /\ hs_phb (h_state h) <= balance) /\
+                (GR_group h t = [] -> newly = 0).
+Proof.
+  intros H HE Hcl. apply GR_pwr_spec in H. destruct H as [[Hg ->]|(Hg & Hle & ->)].
+  - exists 0. split; [lia|]. split; [contradiction|reflexivity].
+  - exists (sumN (map (WD_new_val (GR_release (GR_group h t) (balance - hs_phb (h_state h)))) (h_wait h))).
+    split; [apply WD_R_after|]. split; [|contradiction].
+    intros _. split; [apply WD_new_val_le; assumption | exact Hle].
+Qed.
+
+(** ** 7. The funding invariant *)
+
+(** [bank] = the hub's bank balance of the staking coin.  prev_hub_balance never exceeds it and
+    covers all released claims. *)
+Definition WD_Fund (h : hub) (bank : N) : Prop :=
+  hs_phb (h_state h) <= bank /\ WD_R h <= hs_phb (h_state h).
+
+Lemma WD_sum_user_mine hist u (wait : fmap (addr * N) (N * N)) :
+  sumN (map (WD_entry_val hist) (filter (WD_is_user u) wait)) =
+  sumN (map (WD_entry_val hist) (filter (WD_mine u hist) wait)).
+Proof.
+  induction wait as [|kv r IH]; [reflexivity|].
+  cbn [filter]. unfold WD_mine at 1. fold (WD_is_user u kv).
+  destruct (WD_is_user u kv); cbn [andb]; [|exact IH].
+  destruct (WD_rel hist (snd (fst kv))) eqn:Er; cbn [map sumN]; [lia|].
+  rewrite (WD_entry_val_unreleased _ _ Er). lia.
+Qed.
+
+Lemma WD_R_paid h1 sender balance :
+  WD_R h1 = WD_R (WD_paid h1 sender balance) + WD_user_val h1 sender.
+Proof.
+  unfold WD_R, WD_user_val, WD_paid. cbn [h_hist h_wait set_h_state set_h_wait].
+  rewrite WD_sum_user_mine.
+  rewrite (WD_sum_filter_split (WD_entry_val (h_hist h1)) (WD_mine sender (h_hist h1)) (h_wait h1)).
+  lia.
+Qed.
+
+(** [WD_Fund] is preserved by a successful withdrawal; the new bank balance is the old one minus
+    the payment.  Hypotheses: E1' and the claims bound for the group released by this call. *)
+Theorem WD_fund_withdraw w h self sender h' msgs :
+  execute_withdraw w h self sender = Some (h', msgs) ->
+  let p := h_params h in
+  let balance := bal (w_env w) self (hp_underlying p) in
+  let g := GR_group h (e_now (w_env w) - hp_unbonding p) in
+  WD_Fund h balance ->
+  GR_E1' g (balance - hs_phb (h_state h)) ->
+  WD_claims_le h g ->
+  exists amount, msgs = [MBank sender [(hp_underlying p, amount)]] /\ amount <= balance /\
+                 WD_Fund h' (balance - amount) /\ hs_phb (h_state h') = balance - amount.
+Proof.
+  intros H. cbv zeta. intros [Hphb HR] HE Hcl.
+  apply WD_withdraw_exact in H. cbv zeta in H.
+  destruct H as (Ht & h1 & Hp & Hnz & Hle & -> & ->).
+  exists (WD_user_val h1 sender). split; [reflexivity|]. split; [exact Hle|].
+  destruct (WD_group_paid_le_arrived _ _ _ _ Hp HE Hcl) as (newly & HR1 & Hne & He).
+  pose proof (WD_R_paid h1 sender (bal (w_env w) self (hp_underlying (h_params h)))) as Hsplit.
+  assert (Hnew : newly <= bal (w_env w) self (hp_underlying (h_params h)) - hs_phb (h_state h)).
+  { destruct (GR_group h (e_now (w_env w) - hp_unbonding (h_params h))) as [|g0 gr].
+    - rewrite (He eq_refl). lia.
+    - apply Hne. discriminate. }
+  unfold WD_Fund. cbn [WD_paid h_state set_h_state hs_phb]. split; [|reflexivity].
+  split; [lia|]. lia.
+Qed.
+
+(** ** 8. Order independence *)
+Definition WD_amount_of (msgs : list cmsg) : N :=
+  match msgs with [MBank _ [(_, a)]] => a | _ => 0 end.
+
+Lemma WD_fa_bound hist l t0 l0 amt bs :
+  foldM (WD_fa_step hist) l (t0, l0) = Some (amt, bs) -> t0 <= U128MAX -> amt <= U128MAX.
+Proof.
+  revert t0 l0. induction l as [|bx l IH]; intros t0 l0 H Ht0.
+  - cbn in H. inversion H; subst. exact Ht0.
+  - cbn [foldM] in H. bind_inv H as acc' Hstep. unfold WD_fa_step in Hstep. cbn [fst snd] in Hstep.
+    destruct (get N.eqb hist (fst bx)) as [e|].
+    + destruct (he_released e).
+      * bind_inv Hstep as v0 Hv. bind_inv Hstep as t1 Ht1. apply GR_narrow128_val in Ht1.
+        destruct Ht1 as [-> Hfit]. inversion Hstep; subst acc'. eapply IH; [exact H|exact Hfit].
+      * inversion Hstep; subst acc'. eapply IH; [exact H|exact Ht0].
+    + inversion Hstep; subst acc'. eapply IH; [exact H|exact Ht0].
+Qed.
+
+Lemma WD_withdraw_fits w h self sender h' msgs h1 :
+  execute_withdraw w h self sender = Some (h', msgs) ->
+  process_withdraw_rate h (e_now (w_env w) - hp_unbonding (h_params h))
+                        (bal (w_env w) self (hp_underlying (h_params h))) = Some h1 ->
+  WD_user_val h1 sender <= U128MAX.
+Proof.
+  unfold execute_withdraw. intros H Hp.
+  bind_inv H as historical Hh. unfold sub64 in Hh.
+  destruct (hp_unbonding (h_params h) <=? e_now (w_env w)); [|discriminate].
+  inversion Hh; subst historical. rewrite Hp in H. cbn [bind] in H.
+  bind_inv H as fa Hfa. destruct fa as [amount batches].
+  pose proof (WD_fa_spec _ _ _ _ Hfa) as [<- _].
+  rewrite WD_fa_unfold in Hfa. eapply WD_fa_bound; [exact Hfa|]. apply N.leb_le. reflexivity.
+Qed.
+
+Lemma WD_pwr_empty h t balance : GR_group h t = [] -> process_withdraw_rate h t balance = Some h.
+Proof. unfold process_withdraw_rate, GR_group. intros ->. reflexivity. Qed.
+
+Lemma WD_filter_other_user hist u v (wait : fmap (addr * N) (N * N)) :
+  u <> v ->
+  filter (WD_is_user v) (filter (fun kv => negb (WD_mine u hist kv)) wait) = filter (WD_is_user v) wait.
+Proof.
+  intros Hne. induction wait as [|kv r IH]; [reflexivity|].
+  cbn [filter]. destruct (WD_mine u hist kv) eqn:Em; cbn [negb].
+  - unfold WD_mine in Em. apply andb_true_iff in Em. destruct Em as [Eu _].
+    unfold WD_is_user at 2. apply N.eqb_eq in Eu.
+    assert (Ev : (fst (fst kv) =? v) = false) by (apply N.eqb_neq; congruence).
+    rewrite Ev. exact IH.
+  - cbn [filter]. rewrite IH. reflexivity.
+Qed.
+
+Lemma WD_user_val_other h1 u v balance :
+  u <> v -> WD_user_val (WD_paid h1 u balance) v = WD_user_val h1 v.
+Proof.
+  intros Hne. unfold WD_user_val, WD_paid. cbn [h_hist h_wait set_h_state set_h_wait].
+  rewrite (WD_filter_other_user _ _ _ _ Hne). reflexivity.
+Qed.
+
+Lemma WD_filter_comm {T} (P Q : T -> bool) l : filter P (filter Q l) = filter Q (filter P l).
+Proof.
+  induction l as [|x l IH]; [reflexivity|]. cbn [filter].
+  destruct (P x) eqn:EP; destruct (Q x) eqn:EQ; cbn [filter]; rewrite ?EP, ?EQ, IH; reflexivity.
+Qed.
+
+Lemma WD_paid_comm h1 u v B au av :
+  u <> v -> au = WD_user_val h1 u -> av = WD_user_val h1 v ->
+  WD_paid (WD_paid h1 v B) u (B - av) = WD_paid (WD_paid h1 u B) v (B - au).
+Proof.
+  intros Hne Hau Hav. unfold WD_paid at 1 3.
+  rewrite (WD_user_val_other h1 v u B (not_eq_sym Hne)), (WD_user_val_other h1 u v B Hne).
+  unfold WD_paid. cbn [h_hist h_wait h_state set_h_state set_h_wait hs_ber hs_ser hs_bb hs_bst hs_lim hs_lut hs_lpb
+                       h_cfg h_params h_batch h_newowner h_oldwait].
+  rewrite (WD_filter_comm (fun kv => negb (WD_mine u (h_hist h1) kv))).
+  subst au av.
+  replace (B - WD_user_val h1 v - WD_user_val h1 u) with (B - WD_user_val h1 u - WD_user_val h1 v) by lia.
+  reflexivity.
+Qed.
+
+Lemma WD_paid_group_empty h t balance h1 sender B :
+  process_withdraw_rate h t balance = Some h1 ->
+  GR_group (WD_paid h1 sender B) t = [].
+Proof.
+  intros Hp. apply WD_after_stops in Hp.
+  unfold GR_group, WD_paid. cbn [h_hist h_state set_h_state set_h_wait hs_lpb].
+  apply WD_rg_empty. exact Hp.
+Qed.
+
+Theorem WD_order_independent w h self u v hu mu wu huv mv :
+  u <> v ->
+  let d := hp_underlying (h_params h) in
+  execute_withdraw w h self u = Some (hu, mu) ->
+  e_now (w_env wu) = e_now (w_env w) ->
+  bal (w_env wu) self d = bal (w_env w) self d - WD_amount_of mu ->
+  execute_withdraw wu hu self v = Some (huv, mv) ->
+  forall wv,
+    e_now (w_env wv) = e_now (w_env w) ->
+    bal (w_env wv) self d = bal (w_env w) self d - WD_amount_of mv ->
+    exists hv, execute_withdraw w h self v = Some (hv, mv) /\
+               execute_withdraw wv hv self u = Some (huv, mu).
+Proof.
+  intros Hne d H1 Hnow_u Hbal_u H2 wv Hnow_v Hbal_v. subst d.
+  set (B := bal (w_env w) self (hp_underlying (h_params h))) in *.
+  set (t := e_now (w_env w) - hp_unbonding (h_params h)).
+  pose proof (WD_withdraw_exact _ _ _ _ _ _ H1) as E1. cbv zeta in E1. fold B t in E1.
+  destruct E1 as (Ht & h1 & Hp & Hnz_u & Hle_u & Hmu & Hhu).
+  pose proof (WD_withdraw_fits _ _ _ _ _ _ h1 H1 Hp) as Hfit_u.
+  pose proof (WD_pwr_frame _ _ _ _ Hp) as (_ & _ & Hpar & _).
+  assert (Hpar_u : h_params hu = h_params h) by (rewrite Hhu; cbn; exact Hpar).
+  assert (Hamt_u : WD_amount_of mu = WD_user_val h1 u) by (rewrite Hmu; reflexivity).
+  (* second step of order 1 *)
+  pose proof (WD_withdraw_exact _ _ _ _ _ _ H2) as E2. cbv zeta in E2.
+  rewrite Hpar_u, Hnow_u, Hbal_u, Hamt_u in E2. fold t in E2.
+  destruct E2 as (_ & h2 & Hp2 & Hnz_v & Hle_v & Hmv & Hhuv).
+  pose proof (WD_withdraw_fits _ _ _ _ _ _ h2 H2) as Hfit_v.
+  rewrite Hpar_u, Hnow_u, Hbal_u, Hamt_u in Hfit_v. fold t in Hfit_v. specialize (Hfit_v Hp2).
+  assert (Hh2 : h2 = hu).
+  { rewrite Hhu in Hp2. rewrite (WD_pwr_empty _ _ _ (WD_paid_group_empty _ _ _ _ u B Hp)) in Hp2.
+    inversion Hp2. rewrite Hhu. reflexivity. }
+  subst h2. rewrite Hhu in Hnz_v, Hle_v, Hmv, Hfit_v.
+  rewrite (WD_user_val_other h1 u v B Hne) in Hnz_v, Hle_v, Hmv, Hfit_v.
+  assert (Hamt_v : WD_amount_of mv = WD_user_val h1 v) by (rewrite Hmv; reflexivity).
+  (* order 2, first step *)
+  exists (WD_paid h1 v B). split.
+  - rewrite Hmv. apply (WD_withdraw_ok w h self v h1); try assumption. fold B. lia.
+  - rewrite Hmu.
+    pose proof (WD_withdraw_ok wv (WD_paid h1 v B) self u (WD_paid h1 v B)) as Hok. cbv zeta in Hok.
+    assert (Hpar_v : h_params (WD_paid h1 v B) = h_params h) by (cbn; exact Hpar).
+    rewrite Hpar_v, Hnow_v, Hbal_v, Hamt_v in Hok. fold t in Hok.
+    rewrite (WD_user_val_other h1 v u B (not_eq_sym Hne)) in Hok.
+    rewrite Hok; try assumption; try lia.
+    + f_equal. f_equal. rewrite Hhuv, Hhu.
+      apply WD_paid_comm; [exact Hne|reflexivity|reflexivity].
+    + apply WD_pwr_empty. exact (WD_paid_group_empty _ _ _ _ v B Hp).
+Qed.
+
+(** ** 9. Success under the funding invariant and the E1 magnitudes *)
+Lemma WD_c_D128 : D <= U128MAX. Proof. apply N.leb_le. vm_compute. reflexivity. Qed.
+Lemma WD_c_D1_128 : D + 1 <= U128MAX. Proof. apply N.leb_le. vm_compute. reflexivity. Qed.
+Lemma WD_c_DU : D * U128MAX <= U256MAX. Proof. apply N.leb_le. vm_compute. reflexivity. Qed.
+Lemma WD_c_DD : D * D <= U256MAX. Proof. apply N.leb_le. vm_compute. reflexivity. Qed.
+Lemma WD_c_2DD : (2 * D) * D <= U128MAX. Proof. apply N.leb_le. vm_compute. reflexivity. Qed.
+Lemma WD_c_128_256 : U128MAX <= U256MAX. Proof. apply N.leb_le. vm_compute. reflexivity. Qed.
+
+Lemma WD_mulU256_ok a r : a * r <= U256MAX -> mulU256 a r = Some (a * r / D).
+Proof.
+  intros H. unfold mulU256, mul256, narrow256, fits256. destruct (a =? 0) eqn:Ea; cbn [orb].
+  - apply N.eqb_eq in Ea. subst a. rewrite N.mul_0_l, N.div_0_l by exact D_nz. reflexivity.
+  - destruct (r =? 0) eqn:Er.
+    + apply N.eqb_eq in Er. subst r. rewrite N.mul_0_r, N.div_0_l by exact D_nz. reflexivity.
+    + apply N.leb_le in H. rewrite H. reflexivity.
+Qed.
+
+Lemma WD_ratio256_ok a b : b <> 0 -> a * D <= U256MAX -> ratio256 a b = Some (a * D / b).
+Proof.
+  intros Hb H. unfold ratio256, mul256, narrow256, fits256.
+  apply N.eqb_neq in Hb. rewrite Hb. apply N.leb_le in H. rewrite H. reflexivity.
+Qed.
+
+Lemma WD_add256_ok a b : a + b <= U256MAX -> add256 a b = Some (a + b).
+Proof. intros H. unfold add256, narrow256, fits256. apply N.leb_le in H. rewrite H. reflexivity. Qed.
+
+Lemma WD_signed_sub_ok a b : a <= U128MAX -> b <= U128MAX -> signed_sub a b = Some (GR_sgn a b).
+Proof.
+  intros Ha Hb. unfold signed_sub, fits128, GR_sgn.
+  apply N.leb_le in Ha. apply N.leb_le in Hb. rewrite Ha, Hb. destruct (b <=? a); reflexivity.
+Qed.
+
+Lemma WD_floor_le a w : w <= D -> a * w / D <= a.
+Proof. intros H. apply N.div_le_upper_bound; [exact D_nz|]. nia. Qed.
+
+Lemma WD_nwr_ok amount wrate total slashed neg :
+  amount <= D -> wrate <= U128MAX -> amount * wrate / D <= total -> total <= D -> slashed <= D ->
+  exists r, new_withdraw_rate amount wrate total slashed neg = Some r.
+Proof.
+  intros Ha Hw Hu Ht Hs. unfold new_withdraw_rate.
+  pose proof WD_c_D128 as C1. pose proof WD_c_DU as C2. pose proof WD_c_DD as C3.
+  pose proof WD_c_2DD as C4. pose proof WD_c_128_256 as C5. pose proof WD_c_D1_128 as C6.
+  rewrite WD_mulU256_ok by (pose proof (N.mul_le_mono _ _ _ _ Ha Hw); lia). cbn [bind].
+  set (unb := amount * wrate / D) in *.
+  assert (Hunb : unb <= D) by lia.
+  match goal with |- exists r, bind ?m _ = Some r =>
+    assert (Hwt : exists weight, m = Some weight /\ weight <= D) end.
+  { destruct (total =? 0) eqn:Et.
+    - exists 0. split; [reflexivity|lia].
+    - exists (unb * D / total). split.
+      + apply WD_ratio256_ok; [lia|]. pose proof (N.mul_le_mono _ _ _ _ Hunb (N.le_refl D)). lia.
+      + apply N.div_le_upper_bound; [lia|]. nia. }
+  destruct Hwt as (weight & -> & Hwt). cbn [bind].
+  rewrite WD_mulU256_ok by (pose proof (N.mul_le_mono _ _ _ _ Hs Hwt); lia). cbn [bind].
+  pose proof (WD_floor_le slashed weight Hwt) as Hsb.
+  set (sb := slashed * weight / D) in *.
+  match goal with |- exists r, bind ?m _ = Some r =>
+    assert (Hact : exists actual, m = Some actual /\ actual <= 2 * D) end.
+  { destruct neg.
+    - exists (unb + (if 1 <? sb then sb - 1 else 0)).
+      assert (Hb : unb + (if 1 <? sb then sb - 1 else 0) <= 2 * D) by (destruct (1 <? sb); lia).
+      split; [apply WD_add256_ok; nia | exact Hb].
+    - match goal with |- exists a, bind ?m _ = Some a /\ _ =>
+        assert (Hsb' : exists sb', m = Some sb' /\ sb' <= D + 1) end.
+      { destruct (slashed =? 0); [exists sb; split; [reflexivity|lia]|].
+        exists (sb + 1). split; [apply WD_add256_ok; lia | lia]. }
+      destruct Hsb' as (sb' & -> & Hsb'). cbn [bind].
+      rewrite WD_signed_sub_ok by lia. cbn [bind]. eexists. split; [reflexivity|].
+      unfold GR_sgn. destruct (sb' <=? unb); cbn [fst snd]; lia. }
+  destruct Hact as (actual & -> & Hact). cbn [bind].
+  destruct (amount =? 0) eqn:Ea; [eexists; reflexivity|].
+  unfold narrow128 at 1, fits128.
+  assert (Hf : (actual <=? U128MAX) = true) by nia. rewrite Hf. cbn [bind].
+  unfold ratio. rewrite Ea. unfold narrow128, fits128.
+  assert (Hq : actual * D / amount <= U128MAX).
+  { assert (actual * D / amount <= actual * D) by (apply N.div_le_upper_bound; [lia|]; nia).
+    pose proof (N.mul_le_mono _ _ _ _ Hact (N.le_refl D)). lia. }
+  apply N.leb_le in Hq. rewrite Hq. eexists; reflexivity.
+Qed.
+
+(** E1 magnitudes for the release of group [g] at hub balance [balance] *)
+Definition WD_E1 (g : list (N * hist_entry)) (balance : N) : Prop :=
+  balance <= D /\ GR_tot_s g + GR_tot_b g <= D /\
+  forall i e, In (i, e) g ->
+    he_samt e <= D /\ he_bamt e <= D /\ he_swithdraw e <= U128MAX /\ he_bwithdraw e <= U128MAX.
+
+Lemma WD_group_totals_ok g s0 b0 :
+  s0 + GR_tot_s g <= U256MAX -> b0 + GR_tot_b g <= U256MAX ->
+  (forall i e, In (i, e) g ->
+     he_samt e <= D /\ he_bamt e <= D /\ he_swithdraw e <= U128MAX /\ he_bwithdraw e <= U128MAX) ->
+  foldM (fun acc (ie : N * hist_entry) =>
+           let e := snd ie in
+           do su <- mulU256 (he_samt e) (he_swithdraw e);
+           do bu <- mulU256 (he_bamt e) (he_bwithdraw e);
+           do st <- add256 (fst acc) su;
+           do bt <- add256 (snd acc) bu;
+           Some (st, bt)) g (s0, b0) = Some (s0 + GR_tot_s g, b0 + GR_tot_b g).
+Proof.
+  revert s0 b0. induction g as [|[i e] g IH]; intros s0 b0 Hs Hb Hin.
+  - cbn. rewrite !N.add_0_r. reflexivity.
+  - unfold GR_tot_s, GR_tot_b, GR_us, GR_ub in *. cbn [map sumN snd] in *.
+    cbn [foldM]. cbv zeta. cbn [fst snd].
+    destruct (Hin i e (or_introl eq_refl)) as (H1 & H2 & H3 & H4).
+    pose proof WD_c_DU as C2.
+    rewrite WD_mulU256_ok by (pose proof (N.mul_le_mono _ _ _ _ H1 H3); lia). cbn [bind].
+    rewrite WD_mulU256_ok by (pose proof (N.mul_le_mono _ _ _ _ H2 H4); lia). cbn [bind].
+    rewrite WD_add256_ok by lia. cbn [bind]. rewrite WD_add256_ok by lia. cbn [bind].
+    rewrite IH; [f_equal; f_equal; lia | lia | lia |].
+    intros i' e' H'. apply (Hin i' e'). right. exact H'.
+Qed.
+
+Lemma WD_group_totals_ok' g :
+  GR_tot_s g <= U256MAX -> GR_tot_b g <= U256MAX ->
+  (forall i e, In (i, e) g ->
+     he_samt e <= D /\ he_bamt e <= D /\ he_swithdraw e <= U128MAX /\ he_bwithdraw e <= U128MAX) ->
+  group_totals g = Some (GR_tot_s g, GR_tot_b g).
+Proof.
+  intros Hs Hb Hin. unfold group_totals.
+  exact (WD_group_totals_ok g 0 0 ltac:(lia) ltac:(lia) Hin).
+Qed.
+
+Lemma WD_in_le_sum (f : N * hist_entry -> N) g ie : In ie g -> f ie <= sumN (map f g).
+Proof.
+  induction g as [|x g IH]; intros H; [destruct H|]. cbn [map sumN].
+  destruct H as [->|H]; [lia|]. specialize (IH H). lia.
+Qed.
+
+Lemma WD_release_fold_ok Ust Ub slst slb g hist :
+  Ust <= D -> Ub <= D -> fst slst <= D -> fst slb <= D ->
+  (forall i e, In (i, e) g ->
+     he_samt e <= D /\ he_bamt e <= D /\ he_swithdraw e <= U128MAX /\ he_bwithdraw e <= U128MAX /\
+     he_samt e * he_swithdraw e / D <= Ust /\ he_bamt e * he_bwithdraw e / D <= Ub) ->
+  exists hist',
+  foldM (fun hist (ie : N * hist_entry) =>
+           let '(i, e) := ie in
+           do sr <- new_withdraw_rate (he_samt e) (he_swithdraw e) Ust (fst slst) (snd slst);
+           do br <- new_withdraw_rate (he_bamt e) (he_bwithdraw e) Ub (fst slb) (snd slb);
+           Some (hist_put hist i
+                   (mkHist (he_time e) (he_bamt e) (he_bapplied e) br
+                           (he_samt e) (he_sapplied e) sr true)))
+        g hist = Some hist'.
+Proof.
+  intros HUs HUb Hss Hsb. revert hist. induction g as [|[i e] g IH]; intros hist Hin.
+  - eexists. reflexivity.
+  - cbn [foldM].
+    destruct (Hin i e (or_introl eq_refl)) as (H1 & H2 & H3 & H4 & H5 & H6).
+    destruct (WD_nwr_ok (he_samt e) (he_swithdraw e) Ust (fst slst) (snd slst) H1 H3 H5 HUs Hss) as (sr & ->).
+    cbn [bind].
+    destruct (WD_nwr_ok (he_bamt e) (he_bwithdraw e) Ub (fst slb) (snd slb) H2 H4 H6 HUb Hsb) as (br & ->).
+    cbn [bind]. apply IH. intros i' e' H'. apply (Hin i' e'). right. exact H'.
+Qed.
+
+Lemma WD_pwr_ok h t balance :
+  WD_E1 (GR_group h t) balance -> hs_phb (h_state h) <= balance ->
+  exists h1, process_withdraw_rate h t balance = Some h1.
+Proof.
+  intros (HbD & HU & Hin) Hphb. unfold process_withdraw_rate. fold (GR_group h t).
+  destruct (GR_group h t) as [|g0 gr] eqn:Eg; [eexists; reflexivity|].
+  set (g := g0 :: gr) in *.
+  pose proof WD_c_D128 as C1. pose proof WD_c_DU as C2. pose proof WD_c_DD as C3.
+  pose proof WD_c_128_256 as C5.
+  rewrite (WD_group_totals_ok' g) by (try lia; exact Hin).
+  cbn [bind].
+  set (Us := GR_tot_s g) in *. set (Ub := GR_tot_b g) in *.
+  rewrite WD_signed_sub_ok by lia. cbn [bind].
+  unfold GR_sgn at 1 2. assert (E : (hs_phb (h_state h) <=? balance) = true) by lia. rewrite E.
+  cbn [fst snd negb].
+  set (A := balance - hs_phb (h_state h)). assert (HA : A <= D) by lia.
+  rewrite WD_add256_ok by lia. cbn [bind].
+  match goal with |- exists h1, bind ?m _ = Some h1 =>
+    assert (Hbr : exists br, m = Some br /\ br <= D) end.
+  { destruct (0 <? Us + Ub) eqn:E0; [|exists 0; split; [reflexivity|lia]].
+    rewrite WD_ratio256_ok; [|lia|].
+    - cbn [bind]. unfold sub256.
+      assert (Hq : Us * D / (Us + Ub) <= D) by (apply N.div_le_upper_bound; [lia|]; nia).
+      assert (E2 : (Us * D / (Us + Ub) <=? D) = true) by (apply N.leb_le; exact Hq). rewrite E2.
+      eexists. split; [reflexivity|]. generalize dependent (Us * D / (Us + Ub)). intros; lia.
+    - assert (Us <= D) by lia. pose proof (N.mul_le_mono _ _ _ _ H (N.le_refl D)). lia. }
+  destruct Hbr as (br & -> & Hbr). cbn [bind].
+  rewrite WD_mulU256_ok by (pose proof (N.mul_le_mono _ _ _ _ HA Hbr); lia). cbn [bind].
+  pose proof (WD_floor_le A br Hbr) as Hba. set (Ab := A * br / D) in *.
+  rewrite WD_signed_sub_ok by lia. cbn [bind].
+  unfold sub256. assert (E3 : (Ab <=? A) = true) by lia. rewrite E3. cbn [bind].
+  rewrite WD_signed_sub_ok by lia. cbn [bind].
+  destruct (WD_release_fold_ok Us Ub (GR_sgn Us (A - Ab)) (GR_sgn Ub Ab) g (h_hist h)) as (hist' & ->).
+  - lia.
+  - lia.
+  - unfold GR_sgn. destruct (A - Ab <=? Us); cbn [fst]; lia.
+  - unfold GR_sgn. destruct (Ab <=? Ub); cbn [fst]; lia.
+  - intros i e Hie. destruct (Hin i e Hie) as (H1 & H2 & H3 & H4). repeat split; try assumption.
+    + exact (WD_in_le_sum (fun ie => he_samt (snd ie) * he_swithdraw (snd ie) / D) g (i, e) Hie).
+    + exact (WD_in_le_sum (fun ie => he_bamt (snd ie) * he_bwithdraw (snd ie) / D) g (i, e) Hie).
+  - cbn [bind]. eexists. reflexivity.
+Qed.
+
+Lemma WD_user_val_le_R h u : WD_user_val h u <= WD_R h.
+Proof.
+  unfold WD_user_val, WD_R.
+  rewrite (WD_sum_filter_split (WD_entry_val (h_hist h)) (WD_is_user u) (h_wait h)). lia.
+Qed.
+
+(** a claimant whose released claims (after the release this call performs) are worth >= 1 succeeds *)
+Theorem WD_withdraw_succeeds w h self sender :
+  let p := h_params h in
+  let balance := bal (w_env w) self (hp_underlying p) in
+  let t := e_now (w_env w) - hp_unbonding p in
+  let g := GR_group h t in
+  hp_unbonding p <= e_now (w_env w) ->
+  WD_Fund h balance -> WD_E1 g balance ->
+  GR_E1' g (balance - hs_phb (h_state h)) -> WD_claims_le h g ->
+  exists h1,
+    process_withdraw_rate h t balance = Some h1 /\
+    WD_R h1 <= balance /\
+    (1 <= WD_user_val h1 sender ->
+     execute_withdraw w h self sender =
+     Some (WD_paid h1 sender balance, [MBank sender [(hp_underlying p, WD_user_val h1 sender)]])).
+Proof.
+  cbv zeta. intros Ht [Hphb HR] HE1 HE1' Hcl.
+  destruct (WD_pwr_ok _ _ _ HE1 Hphb) as (h1 & Hp). exists h1. split; [exact Hp|].
+  destruct (WD_group_paid_le_arrived _ _ _ _ Hp HE1' Hcl) as (newly & HR1 & Hne & He).
+  assert (HRb : WD_R h1 <= bal (w_env w) self (hp_underlying (h_params h))).
+  { destruct (GR_group h (e_now (w_env w) - hp_unbonding (h_params h))) as [|g0 gr].
+    - rewrite (He eq_refl) in HR1. lia.
+    - destruct (Hne ltac:(discriminate)). lia. }
+  split; [exact HRb|]. intros H1.
+  pose proof (WD_user_val_le_R h1 sender) as Hle.
+  destruct HE1 as (HbD & _). pose proof WD_c_D128.
+  apply WD_withdraw_ok; try assumption; lia.
+Qed.
